@@ -8,11 +8,15 @@ import orch
 
 
 def build_real():
-    out = os.path.join(orch.BUILD, "bin", "vflow-real")
+    out = os.path.join(orch.BUILD, "bin", "vflow-real.%d" % os.getpid())  # per run: a concurrent run may be executing its own
     os.makedirs(os.path.dirname(out), exist_ok=True)
+    if os.path.exists(out):
+        return out
     r = subprocess.run(["go", "build", "-o", out, "./vflow"], cwd=orch.REPO, env=orch.GOENV, stdout=subprocess.PIPE, stderr=subprocess.STDOUT, text=True)
     if r.returncode != 0:
         raise orch.MachineryError("build of the real vflow binary failed:\n" + r.stdout[-3000:])
+    import atexit
+    atexit.register(lambda p=out: os.path.exists(p) and os.remove(p))
     return out
 
 
